@@ -7,6 +7,7 @@ import (
 	"runtime/debug"
 	"strings"
 	"sync"
+	"sync/atomic"
 	"testing"
 	"testing/synctest"
 	"time"
@@ -247,7 +248,7 @@ type runner struct {
 	skipped    int
 	opTr       []opTrace
 	notes      []string
-	burstLoad  int
+	burstLoad  atomic.Int64
 	unstable   map[int]bool
 	closing    bool
 	routerDown bool
@@ -746,6 +747,10 @@ func (s *sess) yieldLocked(c *callRec) {
 	it := &outItem{msg: &wamp.Yield{Request: c.invReq, Options: wamp.Dict{}, Arguments: wamp.List{c.token}},
 		desc: "YIELD " + c.token, enq: r.now(), acc: -1, yield: c}
 	c.yielded = it
+	if bl := int(r.burstLoad.Load()); bl > 0 && c.caller.spec.Q < bl && c.exp != nil {
+		// the RESULT arrives together with the rest of a burst
+		c.exp.strict = false
+	}
 	if u := it.enq + retryWindow(c.caller); u > s.excUntil {
 		s.excUntil = u
 	}
